@@ -51,7 +51,7 @@ func runC03(r *Run, p *Prog) {
 	reqSt := derefStruct(sdec[0].Target.Type())
 	repSt := derefStruct(cm.Decode.Target.Type())
 	callSt := cm.CallLit.Type().(*types.Pointer).Elem().Underlying().(*types.Struct)
-	replyT := p.NamedType(pkgVarlink, "serviceReply")
+	replyT := replyF.Type
 	if reqSt == nil || repSt == nil || replyT == nil {
 		r.Unresolved("P1", "wire structs")
 		return
@@ -142,7 +142,7 @@ func runC03(r *Run, p *Prog) {
 						continue
 					}
 					n++
-					vals := fieldStores(a)["Parameters"]
+					vals := fieldStores(a)[replyF.Parameters]
 					okk := len(vals) <= 1
 					// a function of the generic reply API (it has an interface-typed parameters argument) must pass
 					// that argument on; a typed helper (no such argument) builds its own typed value, whose content
